@@ -74,6 +74,11 @@ fn main() {
             out.insert("detail".into(), format!("{}", e).into());
         }
         Ok(Ok(())) => {
+            if let Some(d) = ctx.program_details("main") {
+                let mut ps: Vec<String> = d.params().iter().map(|s| s.to_string()).collect();
+                ps.sort();
+                out.insert("params".into(), ps.into());
+            }
             let mut bc = BindContext::new();
             for (k, v) in binds.iter() {
                 bc.bind_param(k, mk(v));
